@@ -11,7 +11,9 @@ enum Reader { R_I32 = 0, R_U32, R_I64, R_U64, R_FLOAT, R_DOUBLE, R_NUMBER, R_BOO
 const char *READER_NAME[] = {"Int32", "UInt32", "Int64", "UInt64", "Float", "Double", "Number", "Bool", "Choice", "CopyText", "ArbitraryBlock", "Characters", "Parameter", "ArrayInt32", "ArrayDouble"};
 const char *CLS_NAME[] = {"DEC", "DECSUF", "NONDEC", "MNEM", "STR", "BLK", "EXPR"};
 
-const scpi_choice_def_t trig_choice[] = {{"BUS", 5}, {"IMMediate", 6}, {"EXTernal", 7}, SCPI_CHOICE_LIST_END};
+// tags are the application's own numbers: small, negative ("-1 = automatic" is a firmware habit), zero, large
+const scpi_choice_def_t trig_choice[] = {{"BUS", 5}, {"IMMediate", 6}, {"EXTernal", 7}, {"TIMer", -1}, {"MANual", 0}, {"LINE", 2147483647}, {"HOLD", -2147483647 - 1},
+                                         SCPI_CHOICE_LIST_END};
 
 struct MnemInfo {
     const char *lit;
@@ -22,6 +24,7 @@ const MnemInfo MNEMS[] = {
     {"MAX", false, false, true},  {"maximum", false, false, true},   {"DEF", false, false, true},   {"UP", false, false, true},   {"DOWN", false, false, true},
     {"NAN", false, false, true},  {"INF", false, false, true},       {"INFinity", false, false, true}, {"NINF", false, false, true}, {"AUTO", false, false, true},
     {"BUS", false, true, false},  {"IMM", false, true, false},       {"IMMediate", false, true, false}, {"ext", false, true, false},  {"EXTERNAL", false, true, false},
+    {"TIM", false, true, false},  {"timer", false, true, false},     {"MAN", false, true, false},   {"LINE", false, true, false}, {"hold", false, true, false},
     {"FOO", false, false, false}, {"abc_1", false, false, false},    {"IMMED", false, false, false}, {"O", false, false, false},   {"MINI", false, false, false},
 };
 const MnemInfo *find_mnem(const std::string &s) {
@@ -383,7 +386,7 @@ struct PRun {
                     cmp = true;
                     got = std::to_string(ch);
                     char c0 = (char) toupper(it->lit[0]);
-                    exp = c0 == 'B' ? "5" : c0 == 'I' ? "6" : "7";
+                    exp = c0 == 'B' ? "5" : c0 == 'I' ? "6" : c0 == 'E' ? "7" : c0 == 'T' ? "-1" : c0 == 'M' ? "0" : c0 == 'L' ? "2147483647" : "-2147483648";
                     break;
                 }
                 case R_COPYTEXT: {
